@@ -702,18 +702,21 @@ func (v *Protocol) WritePacket(pkt Packet, streamID int) (err error) {
 	m.streamID = uint32(streamID)
 	m.betterCid = pkt.BetterCid()
 
-	if err = v.WriteMessage(m); err != nil {
-		return oe.WithMessage(err, "write message")
+	// Register the request before any byte of it can reach the peer, because
+	// the response may arrive (and be decoded by the reading goroutine) before
+	// the write returns.
+	if err = v.onPacketWriting(m, pkt); err != nil {
+		return oe.WithMessage(err, "on writing packet")
 	}
 
-	if err = v.onPacketWriten(m, pkt); err != nil {
-		return oe.WithMessage(err, "on write packet")
+	if err = v.WriteMessage(m); err != nil {
+		return oe.WithMessage(err, "write message")
 	}
 
 	return
 }
 
-func (v *Protocol) onPacketWriten(m *Message, pkt Packet) (err error) {
+func (v *Protocol) onPacketWriting(m *Message, pkt Packet) (err error) {
 	var tid amf0.Number
 	var name amf0.String
 
